@@ -16,7 +16,7 @@ Value equality for all const expressions is NOT decided. Decided structural clau
                   floor); folding is only sound through the shared incan_core kernels
 """
 from engines import (AST, IR, arm_regions, callee_generic, callee_name, discr_switches, op_place, postdominators,
-                     primary_dispatch, quote_paths, region_outputs, short, all_string_constants)
+                     primary_dispatch, quote_paths, reaches, region_outputs, short, all_string_constants)
 from harness import Finding
 
 CONFIGS = {"quick": ["default", "stdlib_web"], "thorough": ["default", "stdlib_web"]}
@@ -270,8 +270,13 @@ def cycle(F, rep):
             ok3 = sw["block"] in dom.get(inprog[0], set())
             regs = arm_regions(f, sw)
             arm = regs.get("InProgress", set())
-            ok4 = not any(b in arm for b in rec) and any(
-                f.term(b)["t"] == "call" and (callee_generic(f.term(b)) or "").endswith("::push") for b in arm)
+            pushes = [b for b in arm if f.term(b)["t"] == "call" and
+                      (callee_generic(f.term(b)) or "").endswith("::push") and
+                      "CompileError" in (f.term(b)["f"].get("inst", "") + f.term(b)["f"].get("self", ""))]
+            rets = [bi for bi in range(len(f.blocks)) if f.term(bi)["t"] == "return"]
+            entry = dict(sw["explicit"])["InProgress"]
+            # every way out of the arm reports: no return is reachable from the arm's entry around the push
+            ok4 = not any(b in arm for b in rec) and bool(pushes) and not reaches(f, entry, rets, avoid=set(pushes))
             for name, ok, msg in (
                     ("mark-dominates-recursion", ok1, "insert(InProgress) does not dominate the recursive evaluation"),
                     ("done-postdominates-recursion", ok2, "insert(Done) does not post-dominate the recursive "
